@@ -1002,4 +1002,22 @@ def maximal_programs():
     L.append(Line(["\treturn (", fa, "(NULL, ", ft, "(0), 2));"], "stmt", 1, 3, stmt="return"))
     L.append(Line(["}"], "func_close", 0, 3))
     out.append(Prog(name, L, dict(nfuncs=4, maximal="function-pointer / array globals, prototypes, function-pointer parameter and local, four functions")))
+    # 6. constants of every C form inside conforming statements: escapes (simple, octal of 1-3 digits, hexadecimal) in
+    #    character constants and strings, prefixes, every integer base and suffix family, decimal and hexadecimal floats
+    name = "mx6.c"
+    sv, vv = Slot("id", "str"), Slot("id", "val")
+    L = header_lines(name) + [Line([""], "blank")]
+    L.append(Line(["int\t", Slot("fname", "lits"), "(void)"], "func_sig", 0, 0))
+    L.append(Line(["{"], "func_open", 0, 0))
+    L.append(Line(["\tchar\t*", sv, ";"], "decl", 1, 0, var=sv))
+    L.append(Line(["\tint\t\t", vv, ";"], "decl", 1, 0, var=vv))
+    L.append(Line([""], "blank_decl", 0, 0))
+    L.append(Line(["\t", sv, ' = "a\\tb\\n\\033[0m\\x1b\\\\\\"%d";'], "stmt", 1, 0, stmt="assign"))
+    L.append(Line(["\t", vv, " = '\\0' + '\\n' + '\\033' + '\\x1b' + '\\\\' + '\\'' + '\"' + '\\7' + '\\12';"], "stmt", 1, 0, stmt="assign"))
+    L.append(Line(["\t", vv, " += 0x1F + 017 + 0b101 + 10u + 10UL + 10ll + 1.5f + 1e3 + .5 + 5.;"], "stmt", 1, 0, stmt="opassign"))
+    L.append(Line(["\t", vv, " += L'a' + sizeof(L\"wide\") + sizeof(u8\"u\") + sizeof(U\"x\") + u'b';"], "stmt", 1, 0, stmt="opassign"))
+    L.append(Line(["\t", vv, " -= 1e-3 + 1E+3 + 0X1F + 0xAp-2 + 1.0L + 3ull + 07l + 0x1p3;"], "stmt", 1, 0, stmt="opassign"))
+    L.append(Line(["\treturn (", vv, " + ", sv, "[0]);"], "stmt", 1, 0, stmt="return"))
+    L.append(Line(["}"], "func_close", 0, 0))
+    out.append(Prog(name, L, dict(nfuncs=1, maximal="constants of every C form")))
     return out
